@@ -6,6 +6,9 @@ transformer calls, then `move` / `rapid` with partial axes in both distance mode
 Oracles (independent of the Lean model): per emitted word with numpy from the matrix read *before* the call;
 the chain itself against an independent numpy composition; end to end, a G0/G1/G90/G91 interpreter fed with
 the real output must stay at `transform.apply_transform(position)`.
+Integer-typed arguments (family `int-args`): the numeric parameters are annotated `float`, which admits Python ints, and
+`chain_transform` takes any ndarray, so the same calls are also made with ints / integer-dtype matrices about pivots
+off the integer lattice; the mapping is the one the numbers denote, hence the words equal those of the float spelling.
 """
 from __future__ import annotations
 
@@ -133,6 +136,172 @@ def gen_state_block(rng, exact, budget):
     return ops
 
 
+INT_DTYPES = ["int64", "int64", "int32", "int16", "int8"]
+
+
+def _intify(v, rng, p=1.0):
+    """an integral number as a Python int (with probability p): the same number, typed differently"""
+    if v is not None and float(v).is_integer() and rng.random() < p:
+        return int(v)
+    return v
+
+
+def gen_int_block(rng):
+    """an invertible 3x3 block of small integers: right-angle turn / axis swap, integer scaling, shear, or anything"""
+    u = rng.random()
+    if u < 0.35:
+        return [int(c) for c in rng.choice(X.EXACT_BLOCKS)]
+    if u < 0.6:
+        d = [rng.choice([1, 2, -1, -2, 4]) for _ in range(3)]
+        return [d[0], 0, 0, 0, d[1], 0, 0, 0, d[2]]
+    if u < 0.8:
+        b = [1, 0, 0, 0, 1, 0, 0, 0, 1]
+        i, j = rng.sample(range(3), 2)
+        b[3 * i + j] = rng.choice([1, -1, 1, -1, 2])
+        return b
+    while True:
+        b = [rng.randint(-2, 2) for _ in range(9)]
+        det = round(float(np.linalg.det(np.array(b, dtype=float).reshape(3, 3))))
+        if det in (1, -1, 2, -2):
+            return b
+
+
+def gen_int_op(rng, exact, budget):
+    """one map-changing transformer call whose numbers are integers *typed* as integers"""
+    u = rng.random()
+    if u < 0.5:
+        n = rng.choice([1, 1, 1, 2, 3])
+        fs = []
+        for _ in range(n):
+            f = rng.choice([2, 2, -1, -2, 4, 1] if exact else [2, 2, -1, 3, -2, 5, 10])
+            lg = float(np.log2(abs(f)))
+            if abs(budget["log"] + lg) > budget["max"]:
+                f, lg = rng.choice([1, -1]), 0.0
+            budget["log"] += lg
+            fs.append(f)
+        if n > 1 and rng.random() < 0.35:     # mixed: ints next to a float
+            fs[rng.randrange(n)] = rng.choice([0.5, 2.0, -1.0] if exact else [0.5, 1.5, 2.0, -0.7])
+        return ("scale", fs)
+    if u < 0.85:
+        b = gen_int_block(rng)
+        lg = float(np.log2(max(1, max(abs(c) for c in b))))
+        if budget["log"] + lg > budget["max"]:
+            b = [int(c) for c in rng.choice(X.EXACT_BLOCKS)]
+            lg = 0.0
+        budget["log"] += lg
+        return ("chain", b, rng.choice(INT_DTYPES))
+    k = rng.choice(["translate", "reflect", "rotate", "mirror"])
+    if k == "translate":
+        return ("translate", [rng.randint(-10, 10), rng.randint(-10, 10), rng.choice([0, rng.randint(-10, 10)])])
+    if k == "reflect":
+        n = [0, 0, 0]
+        n[rng.randrange(3)] = rng.choice([1, -1, 2])
+        if not exact and rng.random() < 0.5:
+            n[rng.randrange(3)] = rng.choice([1, -1, 3])
+        return ("reflect", n)
+    if k == "rotate":
+        return ("rotate", 0 if exact else rng.choice([90, -90, 180, 30, 45]), rng.choice(X.AXES))
+    return ("mirror", rng.choice(["xy", "yz", "zx"]))
+
+
+def gen_frac_pivot(rng, exact):
+    """a pivot off the integer lattice on at least one axis: p - A.p is then fractional for an integer block A;
+    coordinates that are integral are handed over as ints"""
+    while True:
+        u = rng.random()
+        if u < 0.3:
+            p = [rng.randint(-20, 20) / rng.choice([2, 4, 8]) for _ in range(3)]
+        elif exact or u < 0.8:
+            p = [X.grid(rng, 128) for _ in range(3)]
+        else:
+            p = [round(rng.uniform(-5, 5), 3) for _ in range(3)]
+        if rng.random() < 0.4:
+            p[2] = 0.0
+        if any(not float(c).is_integer() for c in p):
+            return ("pivot", [_intify(c, rng, 0.7) for c in p])
+
+
+def gen_int_args(rng):
+    """integer-typed arguments to scale / chain_transform (and translate / reflect / rotate / the moves) about pivots
+    off the integer lattice.  The oracle also runs the float spelling of the same program (`float_twin`)."""
+    exact = rng.random() < 0.5
+    budget = {"log": 0.0, "max": 5.0}
+    ops = []
+
+    def xf_block(n):
+        out = []
+        if rng.random() < 0.9:
+            out.append(gen_frac_pivot(rng, exact))
+        for _ in range(n):
+            u = rng.random()
+            if u < 0.7:
+                out.append(gen_int_op(rng, exact, budget))
+            elif u < 0.85:
+                out.append(gen_frac_pivot(rng, exact))
+            else:
+                out.append(X.gen_xf_op(rng, exact, budget))
+        if not any(o[0] == "scale" or (o[0] == "chain" and len(o) > 2) for o in out):
+            out.append(gen_int_op(rng, exact, budget))
+        return out
+
+    def allaxes():
+        return ("move", [X.grid(rng, 640), X.grid(rng, 640), X.grid(rng, 640)], None)
+
+    ops += xf_block(rng.randint(1, 3))
+    if rng.random() < 0.2:
+        ops.append(("dist", "rel"))
+        ops += gen_moves(rng, exact, rng.randint(1, 2))
+        ops.append(("dist", "abs"))
+    ops.append(allaxes())
+    ops += gen_moves(rng, exact, rng.randint(2, 6), rng.choice([0.0, 0.0, 0.25]))
+    if rng.random() < 0.35:
+        ops += xf_block(rng.randint(0, 1))
+        ops.append(("dist", "abs"))
+        ops.append(allaxes())
+        ops += gen_moves(rng, exact, rng.randint(1, 3))
+    if rng.random() < 0.5:   # integral coordinates of the moves typed as ints too
+        def ints(req):
+            return [_intify(c if c is None or rng.random() < 0.6 else float(round(c)), rng, 0.8) for c in req]
+
+        ops = [(o[0], ints(o[1]), *o[2:]) if o[0] in ("move", "rapid", "moveabs", "rapidabs", "setaxis") else o
+               for o in ops]
+    exact = exact and all(X.is_exact_op(o) for o in ops)
+    dp = rng.choice([5, 5, 5, 3, 9]) if exact else 5
+    return {"exact": exact, "dp": dp, "cls": "builder" if rng.random() < 0.3 else "core", "ops": ops, "ints": True}
+
+
+NUMERIC = ("translate", "scale", "rotate", "chain", "reflect", "pivot", "move", "rapid", "moveabs", "rapidabs", "setaxis")
+
+
+def _is_int(c):
+    return isinstance(c, int) and not isinstance(c, bool)
+
+
+def has_int_args(op):
+    if op[0] not in NUMERIC:
+        return False
+    return (op[0] == "chain" and len(op) > 2) or any(
+        _is_int(c) for part in op[1:] for c in (part if isinstance(part, (list, tuple)) else [part]))
+
+
+def float_twin(case):
+    """the same program with every integer-typed number spelled as the float of the same value"""
+    def fl(part):
+        if isinstance(part, (list, tuple)):
+            return [float(c) if _is_int(c) else c for c in part]
+        return float(part) if _is_int(part) else part
+
+    ops = []
+    for o in case["ops"]:
+        if o[0] == "chain":
+            ops.append(("chain", fl(o[1])))
+        elif o[0] in NUMERIC:
+            ops.append((o[0], *[fl(part) for part in o[1:]]))
+        else:
+            ops.append(o)
+    return {**{k: v for k, v in case.items() if k != "ints"}, "ops": ops}
+
+
 def gen_case(rng):
     if rng.random() < 0.08:
         return gen_weak_coupling(rng)
@@ -220,12 +389,68 @@ def execute(case):
         e["frame"] = [[float(c) for c in sess.t.apply_transform(Point(*p))] for p in frame]
         return e
 
+    orig_call = sess._call
+
+    def call(op):
+        if op[0] == "chain" and len(op) > 2:
+            # chain_transform(matrix of the named dtype): the public API takes any 4x4 ndarray
+            m = np.eye(4, dtype=np.dtype(op[2]))
+            m[:3, :3] = np.array(op[1]).reshape(3, 3)
+            n0 = len(sess.rec.lines)
+            try:
+                sess.t.chain_transform(m)
+                outcome = "ok"
+            except ValueError:
+                outcome = "ValueError"
+            return outcome, None, sess.rec.lines[n0:]
+        return orig_call(op)
+
+    sess._call = call
     sess.step = step
     return sess.execute(case["ops"])
 
 
 # ------------------------------------------------------------------ oracles (independent of the Lean model)
 def oracle(case, trace):
+    msg, tag = _oracle(case, trace)
+    if msg or not case.get("ints"):
+        return msg, tag
+    # the float spelling of the same program: same transform, same requests, hence the same words
+    twin = float_twin(case)
+    ttrace = execute(twin)
+    msg, tag = _oracle(twin, ttrace)
+    if msg:
+        return "float spelling of the program: " + msg, tag
+    return same_words(case, trace, ttrace)
+
+
+def same_words(case, trace, ttrace):
+    """each statement of the int-typed program against the float spelling: same codes; every axis word is the rounded
+    image of the same number, so two spellings differ by at most one unit of the last place"""
+    dp = case["dp"]
+    unit = 10.0 ** (-dp)
+    if len(trace) != len(ttrace):
+        return f"{len(trace)} calls made but {len(ttrace)} with float arguments", "int-vs-float"
+    for i, (e, t) in enumerate(zip(trace, ttrace)):
+        where = f"step {i} ({e['line'][:40]})"
+        if e["outcome"] != t["outcome"]:
+            return f"{where}: {e['outcome']} but {t['outcome']} with float arguments", "int-vs-float"
+        if len(e["written"]) != len(t["written"]):
+            return f"{where}: wrote {e['written']} but {t['written']} with float arguments", "int-vs-float"
+        for a, b in zip(e["written"], t["written"]):
+            (ca, wa), (cb, wb) = X.lex_line(a), X.lex_line(b)
+            if ca != cb or (case["exact"] and set(wa) != set(wb)):
+                return f"{where}: wrote {a.strip()!r} but {b.strip()!r} with float arguments", "int-vs-float"
+            for ax in wa:
+                if ax in wb:
+                    x, y = float(wa[ax]), float(wb[ax])
+                    if abs(x - y) > (0.0 if case["exact"] else unit + GUARD * max(1.0, abs(y))):
+                        return (f"{where}: word {ax.upper()}{wa[ax]} with integer-typed arguments but "
+                                f"{ax.upper()}{wb[ax]} with the same numbers as floats"), "int-vs-float"
+    return None, None
+
+
+def _oracle(case, trace):
     dp = case["dp"]
     half = 0.5 * 10.0 ** (-dp)
     ref = X.RefMachine()
@@ -420,6 +645,8 @@ def finish_batch(job):
                 R.count(f"{k}:{'rel' if e['obs']['rel'] else 'abs'}:axes={sum(c is not None for c in e['op'][1])}")
             else:
                 R.count("op:" + k + ("" if e["outcome"] == "ok" else ":" + e["outcome"]))
+            if case.get("ints") and has_int_args(e["op"]):
+                R.count("int-typed:" + k + (":" + e["op"][2] if k == "chain" else ""))
         if not oracle_only:
             d = compare(case, tr, model_out[a:b], R)
             if d:
@@ -452,6 +679,17 @@ CORPUS = [
     {"exact": True, "dp": 5, "cls": "core",
      "ops": [("move", [None, 2.0, None], None), ("mirror", "yz"), ("scale", [0.5]), ("dist", "rel"),
              ("move", [1.0, None, None], None), ("move", [None, None, None], None)]},
+    # integer-typed factors / matrices about a pivot off the integer lattice (p - A.p fractional)
+    {"exact": True, "dp": 5, "cls": "core", "ints": True,
+     "ops": [("pivot", [2.5, 1.25, 0]), ("scale", [2]), ("move", [4.0, 3.0, 0.0], None), ("move", [None, 1, None], None),
+             ("dist", "rel"), ("rapid", [0.5, None, None], None)]},
+    {"exact": True, "dp": 5, "cls": "builder", "ints": True,
+     "ops": [("pivot", [0.5, -1.5, 0.25]), ("chain", [0, -1, 0, 1, 0, 0, 0, 0, 1], "int64"),
+             ("move", [1.0, 2.0, 3.0], None), ("move", [4, None, None], None), ("dist", "rel"),
+             ("move", [None, None, -2], None)]},
+    {"exact": False, "dp": 5, "cls": "core", "ints": True,
+     "ops": [("pivot", [1 / 3, 0.1, 0]), ("scale", [3, 0.5]), ("chain", [1, 1, 0, 0, 1, 0, 0, 0, 2], "int32"),
+             ("rotate", 90, "z"), ("move", [1.0, 2.0, 3.0], None), ("rapid", [None, 7, None], None)]},
 ]
 
 
@@ -462,7 +700,11 @@ def run(R: core.Run):
               "45% on the exact dyadic grid: literal equality of words (as fractions, model value rounded half-even "
               "at dp), mask and tracked position; otherwise tolerant comparison (requested subset of emitted, word == "
               "model value rounded at dp with a 1e-9 tie guard, an omitted axis moves <= 1e-9 in the model); "
-              "non-trivial = >= 2 moves under >= 1 transformer call; distinct by hash")
+              "non-trivial = >= 2 moves under >= 1 transformer call; distinct by hash; plus a family `int-args`: "
+              "scale with Python ints (also mixed with floats), chain_transform with int64/32/16/8 matrices (right-angle, "
+              "integer scaling, shear, unimodular-ish), int-typed translate/reflect/rotate/move arguments, about pivots "
+              "off the integer lattice - compared with the model like the rest, and word for word with the float "
+              "spelling of the same program")
     R.assumptions = [
         "IEEE rounding inside numpy/scipy is not modelled: off-grid cases are compared after rounding at decimal_places with a tie guard",
         "scipy Rotation: the 3x3 block is read from the very call the code makes and handed to the model as exact rationals "
@@ -478,6 +720,7 @@ def run(R: core.Run):
     ]
     run_batch(R, CORPUS, "corpus")
     run_all(R, [gen_case(R.rng) for _ in range(R.n(1000, 20000))], "random", 250)
+    run_all(R, [gen_int_args(R.rng) for _ in range(R.n(90, 1500))], "int-args", 250)
     if R.thorough:
         ex = list(exhaustive_cases(3))
         run_all(R, ex, "exhaustive-chains<=3", 400)
@@ -489,6 +732,7 @@ def run(R: core.Run):
     if R.broken:
         R.search_batches += 1
         run_all(R, [gen_case(R.rng) for _ in range(R.n(1500, 6000))], "search", 500, oracle_only=True)
+        run_all(R, [gen_int_args(R.rng) for _ in range(R.n(150, 600))], "search-int-args", 500, oracle_only=True)
     return {}, {}
 
 
